@@ -1,7 +1,7 @@
 SPECIFICATION Spec
 CONSTANTS
   NNames = 3
-  Ops = {"pstruct", "pvar2", "pconst2", "define2", "lvar2", "lconst2", "pvar", "pconst", "ptype", "func", "method", "define", "lvar", "lconst", "ltype", "use", "muse", "block", "if", "for", "switch", "range", "funclit", "close", "pover", "xmain", "errwrap", "echo", "interp", "forin", "lambdab", "lambda", "compr"}
+  Ops = {"pvar2", "pconst2", "define2", "lvar2", "lconst2", "pvar", "pconst", "ptype", "func", "method", "define", "lvar", "lconst", "ltype", "use", "muse", "block", "if", "for", "switch", "range", "funclit", "close", "pover", "xmain", "errwrap", "echo", "interp", "forin", "lambdab", "lambda", "compr"}
   MaxOcc = 8
   MaxItems = 12
   MaxDepth = 3
